@@ -95,6 +95,9 @@ impl Runtime {
 
         let proc = Process::new(&proc_id, self);
         proc.load(&w)?;
+        // register the process before it is launched so that another start with the same pid is refused
+        // (in the cache only: a stored process that is not started yet would be started by restore)
+        self.cache.register_proc(&proc);
         self.launch(&proc);
 
         Ok(proc)
